@@ -159,6 +159,8 @@ class GenFile:
         if old != body:
             with open(p, 'w') as f:
                 f.write(body)
+            return True
+        return False
 
     def _build(self):
         r = subprocess.run(['lake', 'build', 'PelGen.' + self.name], cwd=os.path.join(self.verif, 'lean'),
@@ -167,7 +169,10 @@ class GenFile:
 
     def write(self, build=True):
         """write the file; a generated definition that does not elaborate is withdrawn (`none`), never left to break the build"""
-        self._write()
+        changed = self._write()
+        olean = os.path.join(self.verif, 'lean', '.lake', 'build', 'lib', 'lean', 'PelGen', self.name + '.olean')
+        if build and not changed and os.path.exists(olean) and os.path.getmtime(olean) >= os.path.getmtime(self.path()):
+            build = False       # the same text as last time, and that text was built: nothing to test-build again
         if build:
             ok, out = self._build()
             if not ok:
